@@ -9,7 +9,7 @@ open KMap
 
 /-- closed-world side conditions of one operation (see `Props/C03.lean` for the reading) -/
 def HOpOK (env : Env) (h : HWorld) : HOp → Prop
-  | .k (.convertCoin m) => isHexAddress m.denom.s = false ∧ m.sender.bytes ≠ env.modAddr
+  | .k (.convertCoin m) => m.sender.bytes ≠ env.modAddr
   | .k (.convertERC20 m) => m.sender.bytes ≠ env.modAddr
   | .k (.registerCoin _ _ _) => ∀ a, env.create h.w.st.mn = .ok a → get? h.w.st.reg.byAddr a = none
   | .k (.registerERC20 _ c _) => ∀ d, env.denomOf c = .ok d → h.w.st.bank.supply d ≤ h.w.evm.balOf c env.modAddr
